@@ -1,52 +1,126 @@
 (* C07 — all views of the contents agree; mutable views alias exactly those
-   elements. Each accessor refines its list-level specification on [abs s]
-   (nth_error / hd / last, None or the documented panic outside [0, len));
-   the *_set operations write through the mutable reference and change
-   exactly that position (set_nth). *)
-From CB Require Import Spec.
-From CBP Require Import RefDefs Access Views.
-Theorem C07_get : forall i, refines_op (OGet i).
-Proof. exact get_op. Qed.
+   elements. Every accessor refines its list-level specification on [abs s]
+   (nth_error / rev / hd / last; None or the documented panic outside [0, len),
+   also for usize::MAX); iter, range, to_vec, Debug and as_slices (first slice
+   followed by second) present [abs s]; the *_set forms write through the
+   mutable reference and change exactly that position; make_contiguous returns
+   everything in one slice. [C07_distinct_slots]: the slots of distinct
+   positions are distinct, so no two mutable references alias.
+   This file only pins statements; proofs are in coq/proofs/. *)
+From CB Require Import Spec Unstable.
+From Coq Require Import Permutation.
+From CBP Require Import Step RefDefs C02Lemmas Arith AbsLemmas AllOps FaultDefs FaultPrims FaultDropA FaultDropB FaultUser
+     Iters DrainP ExtendIo CmpHash Ctors PhysMoves UnstableEq Access Views RefTruncate FillExtend.
+
+
+Theorem C07_get :
+  forall i, refines_op (OGet i).
+Proof. exact (fun i => exec_refines (OGet i)). Qed.
 Print Assumptions C07_get.
-Theorem C07_nth_front : forall i, refines_op (ONthFront i).
-Proof. exact nth_front_op. Qed.
+
+Theorem C07_nth_front :
+  forall i, refines_op (ONthFront i).
+Proof. exact (fun i => exec_refines (ONthFront i)). Qed.
 Print Assumptions C07_nth_front.
-Theorem C07_nth_back : forall i, refines_op (ONthBack i).
-Proof. exact nth_back_op. Qed.
+
+Theorem C07_nth_back :
+  forall i, refines_op (ONthBack i).
+Proof. exact (fun i => exec_refines (ONthBack i)). Qed.
 Print Assumptions C07_nth_back.
-Theorem C07_front : refines_op OFront.
-Proof. exact front_op. Qed.
+
+Theorem C07_front :
+  refines_op OFront.
+Proof. exact (exec_refines (OFront)). Qed.
 Print Assumptions C07_front.
-Theorem C07_back : refines_op OBack.
-Proof. exact back_op. Qed.
+
+Theorem C07_back :
+  refines_op OBack.
+Proof. exact (exec_refines (OBack)). Qed.
 Print Assumptions C07_back.
-Theorem C07_index : forall i, refines_op (OIndex i).
-Proof. exact index_op. Qed.
+
+Theorem C07_index :
+  forall i, refines_op (OIndex i).
+Proof. exact (fun i => exec_refines (OIndex i)). Qed.
 Print Assumptions C07_index.
-Theorem C07_get_mut : forall i v, refines_op (OGetMutSet i v).
-Proof. exact get_mut_set_op. Qed.
-Print Assumptions C07_get_mut.
-Theorem C07_nth_front_mut : forall i v, refines_op (ONthFrontMutSet i v).
-Proof. exact nth_front_mut_set_op. Qed.
-Print Assumptions C07_nth_front_mut.
-Theorem C07_nth_back_mut : forall i v, refines_op (ONthBackMutSet i v).
-Proof. exact nth_back_mut_set_op. Qed.
-Print Assumptions C07_nth_back_mut.
-Theorem C07_front_mut : forall v, refines_op (OFrontMutSet v).
-Proof. exact front_mut_set_op. Qed.
-Print Assumptions C07_front_mut.
-Theorem C07_back_mut : forall v, refines_op (OBackMutSet v).
-Proof. exact back_mut_set_op. Qed.
-Print Assumptions C07_back_mut.
-Theorem C07_index_mut : forall i v, refines_op (OIndexMutSet i v).
-Proof. exact index_mut_set_op. Qed.
-Print Assumptions C07_index_mut.
-Theorem C07_as_slices : refines_op OAsSlices.
-Proof. exact as_slices_op. Qed.
+
+Theorem C07_iter :
+  forall script, refines_op (OIter script).
+Proof. exact (fun script => exec_refines (OIter script)). Qed.
+Print Assumptions C07_iter.
+
+Theorem C07_range :
+  forall sb eb script, refines_op (ORange sb eb script).
+Proof. exact (fun sb eb script => exec_refines (ORange sb eb script)). Qed.
+Print Assumptions C07_range.
+
+Theorem C07_as_slices :
+  refines_op OAsSlices.
+Proof. exact (exec_refines (OAsSlices)). Qed.
 Print Assumptions C07_as_slices.
-Theorem C07_as_mut_slices : forall ws, refines_op (OAsMutSlicesSet ws).
-Proof. exact as_mut_slices_set_op. Qed.
+
+Theorem C07_to_vec :
+  refines_op OToVec.
+Proof. exact (exec_refines (OToVec)). Qed.
+Print Assumptions C07_to_vec.
+
+Theorem C07_debug :
+  refines_op ODebug.
+Proof. exact (exec_refines (ODebug)). Qed.
+Print Assumptions C07_debug.
+
+Theorem C07_get_mut :
+  forall i v, refines_op (OGetMutSet i v).
+Proof. exact (fun i v => exec_refines (OGetMutSet i v)). Qed.
+Print Assumptions C07_get_mut.
+
+Theorem C07_nth_front_mut :
+  forall i v, refines_op (ONthFrontMutSet i v).
+Proof. exact (fun i v => exec_refines (ONthFrontMutSet i v)). Qed.
+Print Assumptions C07_nth_front_mut.
+
+Theorem C07_nth_back_mut :
+  forall i v, refines_op (ONthBackMutSet i v).
+Proof. exact (fun i v => exec_refines (ONthBackMutSet i v)). Qed.
+Print Assumptions C07_nth_back_mut.
+
+Theorem C07_front_mut :
+  forall v, refines_op (OFrontMutSet v).
+Proof. exact (fun v => exec_refines (OFrontMutSet v)). Qed.
+Print Assumptions C07_front_mut.
+
+Theorem C07_back_mut :
+  forall v, refines_op (OBackMutSet v).
+Proof. exact (fun v => exec_refines (OBackMutSet v)). Qed.
+Print Assumptions C07_back_mut.
+
+Theorem C07_index_mut :
+  forall i v, refines_op (OIndexMutSet i v).
+Proof. exact (fun i v => exec_refines (OIndexMutSet i v)). Qed.
+Print Assumptions C07_index_mut.
+
+Theorem C07_iter_mut :
+  forall script, refines_op (OIterMut script).
+Proof. exact (fun script => exec_refines (OIterMut script)). Qed.
+Print Assumptions C07_iter_mut.
+
+Theorem C07_range_mut :
+  forall sb eb script, refines_op (ORangeMut sb eb script).
+Proof. exact (fun sb eb script => exec_refines (ORangeMut sb eb script)). Qed.
+Print Assumptions C07_range_mut.
+
+Theorem C07_as_mut_slices :
+  forall ws, refines_op (OAsMutSlicesSet ws).
+Proof. exact (fun ws => exec_refines (OAsMutSlicesSet ws)). Qed.
 Print Assumptions C07_as_mut_slices.
-Theorem C07_make_contiguous : forall ws, refines_op (OMakeContiguous ws).
-Proof. exact make_contiguous_op. Qed.
+
+Theorem C07_make_contiguous :
+  forall ws, refines_op (OMakeContiguous ws).
+Proof. exact (fun ws => exec_refines (OMakeContiguous ws)). Qed.
 Print Assumptions C07_make_contiguous.
+
+Theorem C07_distinct_slots :
+  forall s i j,
+  0 < cap s -> 0 <= start s < cap s -> 0 <= i < cap s -> 0 <= j < cap s ->
+  phys s i = phys s j -> i = j.
+Proof. exact (phys_inj). Qed.
+Print Assumptions C07_distinct_slots.
